@@ -180,6 +180,11 @@ func c10Build(feats []string) map[string]any {
 			body["content"].(map[string]any)["application/x-www-form-urlencoded"] = map[string]any{}
 		case "multipart_body_no_schema":
 			body["content"].(map[string]any)["multipart/form-data"] = map[string]any{}
+		case "recursive_schema_default":
+			// a recursive schema whose recursive property has a default: every injected default asks for another one
+			comps["schemas"].(map[string]any)["Node"] = map[string]any{"type": "object", "properties": map[string]any{
+				"child": map[string]any{"allOf": []any{map[string]any{"$ref": "#/components/schemas/Node"}}, "default": map[string]any{}}}}
+			props["node"] = map[string]any{"$ref": "#/components/schemas/Node"}
 		case "no_request_body":
 			body = nil
 		case "allof_param":
@@ -272,6 +277,9 @@ func c10Request(feats, muts []string) *c10Req {
 	}
 	if has(feats, "param_content_no_schema") {
 		r.query = append(r.query, `g=%7B%22a%22%3A1%7D`)
+	}
+	if has(feats, "recursive_schema_default") {
+		r.body = []byte(`{"id":1,"name":"ab","tags":["x"],"node":{}}`)
 	}
 	if has(feats, "form_body_no_schema") {
 		r.header.Set("Content-Type", "application/x-www-form-urlencoded")
